@@ -10,6 +10,7 @@ import (
 	"os/exec"
 	"strings"
 	"sync"
+	"time"
 
 	"github.com/itchio/headway/state"
 	"github.com/itchio/wharf/archiver"
@@ -114,6 +115,30 @@ func countKinds(b *wvlib.Build) (d, f, l int) {
 	return
 }
 
+// extractZipWatched: ExtractZip with a watchdog (a pool without workers never returns).
+func extractZipWatched(zb []byte, out string, st archiver.ExtractSettings) (*archiver.ExtractResult, error) {
+	type ret struct {
+		res *archiver.ExtractResult
+		err error
+	}
+	ch := make(chan ret, 1)
+	go func() {
+		defer func() {
+			if r := recover(); r != nil {
+				ch <- ret{nil, fmt.Errorf("PANIC %v", r)}
+			}
+		}()
+		res, err := archiver.ExtractZip(bytes.NewReader(zb), int64(len(zb)), out, st)
+		ch <- ret{res, err}
+	}()
+	select {
+	case r := <-ch:
+		return r.res, r.err
+	case <-time.After(wvlib.Watchdog(120 * time.Second)):
+		return nil, fmt.Errorf("HANG: ExtractZip did not return within the watchdog time")
+	}
+}
+
 func copyTree(src, dst string) error {
 	return exec.Command("cp", "-a", src, dst).Run()
 }
@@ -204,10 +229,30 @@ func c19One(env *Env, m *wvlib.Model, c *C19Case) {
 				}
 			}
 		}
-		res, err := archiver.ExtractZip(bytes.NewReader(zb), int64(len(zb)), out, st)
+		var sizeKnown int64 = -1
+		if c.Seed%2 == 0 {
+			st.OnUncompressedSizeKnown = func(n int64) { sizeKnown = n }
+		}
+		res, err := extractZipWatched(zb, out, st)
 		if err != nil {
-			env.R.Violate("extract-error:zip", err.Error(), c)
+			cls := "extract-error:zip"
+			if strings.HasPrefix(err.Error(), "HANG") {
+				cls = "extract-does-not-return:zip"
+				wvlib.NoteHang()
+			}
+			env.R.Violate(cls, fmt.Sprintf("workers=%d: %v", c.Workers, err), c)
 			return
+		}
+		if st.OnUncompressedSizeKnown != nil {
+			var want int64
+			for _, e := range tree.Entries {
+				if e.Kind == 'f' {
+					want += int64(len(e.Data))
+				}
+			}
+			if sizeKnown < want {
+				env.R.Violate("uncompressed-size-wrong:zip", fmt.Sprintf("announced %d bytes, the files alone have %d", sizeKnown, want), c)
+			}
 		}
 		got, _ := wvlib.ReadTree(out)
 		if d := wvlib.DiffTrees(got, tree); d != "" {
@@ -226,7 +271,7 @@ func c19One(env *Env, m *wvlib.Model, c *C19Case) {
 			if _, err := os.Stat(snapDir); err != nil {
 				os.MkdirAll(snapDir, 0o755)
 			}
-			_, err := archiver.ExtractZip(bytes.NewReader(zb), int64(len(zb)), snapDir, st2)
+			_, err := extractZipWatched(zb, snapDir, st2)
 			if err != nil {
 				env.R.Violate("restart-error:zip", err.Error(), c)
 			} else {
@@ -275,9 +320,9 @@ func runC19(env *Env) {
 	if env.Thorough() {
 		nTrees = 60
 	}
-	workers := []int{1, 2, 3, 16, -1}
+	workers := []int{0, 1, 2, 3, 16, -1}
 	if env.Thorough() {
-		workers = []int{1, 2, 3, 4, 5, 8, 11, 16, -1}
+		workers = []int{0, 1, 2, 3, 4, 5, 8, 11, 16, -1}
 	}
 	for t := 0; t < nTrees; t++ {
 		seed := rng.Next()
